@@ -6,6 +6,16 @@ props = [json.loads(l) for l in open(os.path.join(V, "properties.jsonl"))]
 
 # property -> (level text, level note, technique, design_ref)
 CLAIMED = {
+ "C18": ("TLC (MC_C18) models the generator's attribute flow for every placement (fn, parameter, module fn, impl-block fn, trait method) x "
+         "attribute kind (doc, lint, enabled / disabled cfg, tool attribute, inert built-in) x sync/async x deps/no_deps and checks Level 1 "
+         "(Req!C18) on it. Every input is rendered with a marker attribute, expanded by the real macro and compiled; the projector locates the "
+         "marker in the parsed expansion (user's item, generated traits / impls, their methods, parameters of generated signatures); TLC "
+         "(Trace_C18) judges: stays on the original exactly once, not copied to generated items or methods (cfg on module / impl-block fns may "
+         "guard the generated methods), parameter attributes stripped, trait-method attributes mirrored onto delegating methods, a cfg-disabled "
+         "function leaves no dangling method (the program compiles).",
+         "70 inputs, all replayed; attribute identity = canonical token text; a cfg directly on the annotated item is evaluated by rustc before the macro runs and is out of scope",
+         "TLA+ attribute-flow model checked by TLC + replay with TLC validating projected attribute positions and compile verdicts",
+         "7/C18"),
  "C12": ("TLC (MC_C12) models the async part of signature conversion (async and no async_trait => fn -> impl ::core::future::Future<Output = R> "
          "[+ Send], R = () when omitted, Send unless ?Send) and the re-application of async_trait to generated traits and impls over fn / mod / "
          "trait / impl-block inputs x five return shapes x ?Send, and checks Level 1 (Req!C12) on the model. Every input is rendered with three "
